@@ -419,8 +419,9 @@ func (c *client) executeWriteLoop(
 		}
 		c.logger.Debugf("Sending signal with ID '%s' to step with run ID '%s'", signal.ID, signal.RunID)
 		if signal.ID == "" || signal.RunID == "" {
-			c.logger.Errorf("Invalid run ID (%s) or signal ID (%s)", signal.ID, signal.RunID)
-			return
+			// Nothing to send for this one; the signals behind it are still the caller's to send.
+			c.logger.Errorf("Invalid run ID (%s) or signal ID (%s)", signal.RunID, signal.ID)
+			continue
 		}
 		if err := c.sendCBOR(RuntimeMessage{
 			MessageTypeSignal,
